@@ -22,11 +22,11 @@ MODES = ["mask-sweep", "mask-random", "skp-runs", "ordered-sets", "lookalikes", 
 
 
 def gen_cases(tier, rng):
-    per = {"quick": 6, "widen": 30, "thorough": 60}[tier]
+    per = {"quick": 30, "widen": 80, "thorough": 200}[tier]
     out = []
     for mode in MODES:
         for k in range(per):
-            out.append({"mode": mode, "seed": rng.u64(), "len": 300 if tier == "quick" else 1200})
+            out.append({"mode": mode, "seed": rng.u64(), "len": 500 if tier == "quick" else 2000})
     return out
 
 
